@@ -403,3 +403,171 @@ def _fp_to_float(v):
         return -0.0 if v.isNegative() else 0.0
     r = z3.simplify(z3.fpToReal(v))
     return float(fractions.Fraction(r.numerator_as_long(), r.denominator_as_long()))
+
+
+# ------------------------------------------------------------------------------------------------------------------
+# semi-symbolic strings: concrete length per path, characters either concrete or symbolic (z3 Int code points in a
+# stated range).  Only the str methods the parser uses are provided; any result without a symbolic character collapses
+# to a real str, so dictionary keys and the C tokenizer only ever see concrete text.
+
+WHITESPACE = (32, 9, 10, 13, 11, 12)
+
+
+class SymChar(object):
+    __slots__ = ('e',)
+
+    def __init__(self, e):
+        self.e = e
+
+
+def _mk(chars):
+    if all(isinstance(c, str) for c in chars):
+        return ''.join(chars)
+    return SymStr(chars)
+
+
+def _ceq(c, ch):
+    """condition 'character c equals concrete character ch' (python bool or z3 Bool)"""
+    if isinstance(c, str):
+        return c == ch
+    return c.e == ord(ch)
+
+
+def _truth(cond):
+    if cond is True or cond is False:
+        return cond
+    return D.decide(cond)
+
+
+class SymStr(object):
+    def __init__(self, chars):
+        self.chars = list(chars)
+
+    @staticmethod
+    def fresh(name, n, lo=32, hi=126):
+        cs = []
+        for i in range(n):
+            v = z3.Int('%s_%d' % (name, i))
+            D.s.add(v >= lo, v <= hi)
+            cs.append(SymChar(v))
+        return SymStr(cs)
+
+    def __len__(self):
+        return len(self.chars)
+
+    def __iter__(self):
+        return iter(self.chars)
+
+    def __add__(self, other):
+        return _mk(self.chars + list(other.chars if isinstance(other, SymStr) else other))
+
+    def __radd__(self, other):
+        return _mk(list(other) + self.chars)
+
+    def __getitem__(self, idx):
+        if isinstance(idx, slice):
+            return _mk(self.chars[idx])
+        c = self.chars[idx]
+        return c if isinstance(c, str) else SymStr([c])
+
+    def lower(self):
+        out = []
+        for c in self.chars:
+            if isinstance(c, str):
+                out.append(c.lower())
+            else:
+                out.append(SymChar(z3.If(z3.And(c.e >= 65, c.e <= 90), c.e + 32, c.e)))
+        return SymStr(out)
+
+    def _match_at(self, needle, off):
+        conds = []
+        for j, ch in enumerate(needle):
+            q = _ceq(self.chars[off + j], ch)
+            if q is False:
+                return False
+            if q is not True:
+                conds.append(q)
+        return True if not conds else z3.And(conds)
+
+    def __contains__(self, needle):
+        alts = []
+        for off in range(0, len(self.chars) - len(needle) + 1):
+            m = self._match_at(needle, off)
+            if m is True:
+                return True
+            if m is not False:
+                alts.append(m)
+        if not alts:
+            return False
+        return D.decide(z3.Or(alts))
+
+    def find(self, needle, start=0):
+        for off in range(start, len(self.chars) - len(needle) + 1):
+            if _truth(self._match_at(needle, off)):
+                return off
+        return -1
+
+    def _is_space(self, c):
+        if isinstance(c, str):
+            return c.isspace()
+        return D.decide(z3.Or([c.e == w for w in WHITESPACE]))
+
+    def strip(self):
+        cs = list(self.chars)
+        while cs and self._is_space(cs[0]):
+            cs.pop(0)
+        while cs and self._is_space(cs[-1]):
+            cs.pop()
+        return _mk(cs)
+
+    def split(self, sep):
+        assert len(sep) == 1
+        parts, cur = [], []
+        for c in self.chars:
+            if _truth(_ceq(c, sep)):
+                parts.append(_mk(cur))
+                cur = []
+            else:
+                cur.append(c)
+        parts.append(_mk(cur))
+        return parts
+
+    def replace(self, old, new):
+        out, i = [], 0
+        while i < len(self.chars):
+            if i + len(old) <= len(self.chars) and _truth(self._match_at(old, i)):
+                out.extend(list(new))
+                i += len(old)
+            else:
+                out.append(self.chars[i])
+                i += 1
+        return _mk(out)
+
+    def __eq__(self, other):
+        if isinstance(other, str):
+            if len(other) != len(self.chars):
+                return False
+            m = self._match_at(other, 0)
+            return _truth(m)
+        return NotImplemented
+
+    def __ne__(self, other):
+        r = self.__eq__(other)
+        return r if r is NotImplemented else not r
+
+    __hash__ = None
+
+    def __str__(self):
+        raise PathEnd('str()-of-symbolic-string')
+
+    def __repr__(self):
+        return '<symstr len %d>' % len(self.chars)
+
+    def concretize(self, model):
+        out = []
+        for c in self.chars:
+            if isinstance(c, str):
+                out.append(c)
+            else:
+                out.append(chr(model.eval(c.e, model_completion=True).as_long()))
+        return ''.join(out)
